@@ -1,6 +1,7 @@
 """Compile harness programs in /verif/harness against a build flavour of the tree."""
 import os
 import subprocess
+import sys
 
 from vf import build
 
@@ -56,7 +57,7 @@ def compile_cxx(b, name, src=None, libs=("interrogatedb",), extra=(), std="gnu++
             cmd += ["-l" + l for l in want] + ["-Wl,-rpath," + b["libdir"], "-lpthread", "-ldl"]
             p = subprocess.run(cmd, stdout=subprocess.PIPE, stderr=subprocess.STDOUT, text=True)
             if p.returncode != 0:
-                raise SystemExit("HARNESS-ERROR: compiling %s failed:\n%s" % (name, p.stdout[-5000:]))
+                sys.stderr.write("HARNESS-ERROR: compiling %s failed:\n%s" % (name, p.stdout[-5000:]) + "\n"); print("HARNESS-ERROR: compiling %s failed:\n%s" % (name, p.stdout[-5000:]), flush=True); sys.exit(2)
             os.replace(out + ".tmp", out)
     return out
 
@@ -76,6 +77,6 @@ def compile_so(name, src=None, extra=()):
             cmd = ["gcc", "-O2", "-fPIC", "-shared", "-o", out + ".tmp", src, "-ldl"] + list(extra)
             p = subprocess.run(cmd, stdout=subprocess.PIPE, stderr=subprocess.STDOUT, text=True)
             if p.returncode != 0:
-                raise SystemExit("HARNESS-ERROR: compiling seam %s failed:\n%s" % (name, p.stdout[-4000:]))
+                sys.stderr.write("HARNESS-ERROR: compiling seam %s failed:\n%s" % (name, p.stdout[-4000:]) + "\n"); print("HARNESS-ERROR: compiling seam %s failed:\n%s" % (name, p.stdout[-4000:]), flush=True); sys.exit(2)
             os.replace(out + ".tmp", out)
     return out
